@@ -31,11 +31,16 @@ type Verifier struct {
 	allFields  []*types.Var
 	allGlobals []*types.Var
 	timeout    int
+	cells      map[string]*types.Var
+	renderTag  map[string]string
 }
 
 func (v *Verifier) isRepoPkg(path string) bool { return v.repoPkgs[path] }
 
 func (v *Verifier) unitName(cu *FuncUnit) string {
+	if t, ok := v.renderTag[cu.Pkg.PkgPath]; ok {
+		return "generated[" + t + "]." + shortKey(cu.Key)
+	}
 	return cu.Pkg.Types.Name() + "." + shortKey(cu.Key)
 }
 
@@ -122,7 +127,7 @@ type FuncResult struct {
 
 func (v *Verifier) newExec(name string) *Exec {
 	return &Exec{v: v, ctx: NewCtx(), unitName: name, siteOrd: map[string]map[string]int{}, siteVisits: map[string]int{},
-		stmtHits: map[int]int{}, expanding: map[*types.Func]bool{}, inlining: map[*types.Func]bool{}, usedSpecFns: map[string]bool{}, trustedUsed: map[string]bool{}, ghostSorts: map[string]string{}}
+		stmtHits: map[int]int{}, boxed: map[types.Object]bool{}, expanding: map[*types.Func]bool{}, inlining: map[*types.Func]bool{}, usedSpecFns: map[string]bool{}, trustedUsed: map[string]bool{}, ghostSorts: map[string]string{}}
 }
 
 // useClauses: axioms and lemma instances a function asks for
@@ -142,6 +147,7 @@ func (x *Exec) applyUses(cu *FuncUnit, clauses []*Clause, kind string, loop int,
 }
 
 func (x *Exec) useItem(cu *FuncUnit, item string, env *evalEnv, cl *Clause) {
+	item = strings.TrimSpace(item)
 	name := item
 	args := ""
 	if i := strings.Index(item, "("); i > 0 && strings.HasSuffix(item, ")") {
@@ -262,6 +268,11 @@ func (v *Verifier) verifyFunc(cu *FuncUnit, con *Contract) (res *FuncResult) {
 		x.readFacts(val)
 	}
 	bindParam(sig.Recv())
+	if r := sig.Recv(); r != nil && r.Name() != "" && r.Name() != "_" {
+		if _, isPtr := ptrElem(r.Type()); isPtr {
+			st.assume(not(eq(st.vars[r].S, "0"))) // implicit precondition of a pointer-receiver method; checked at every modular call
+		}
+	}
 	for i := 0; i < sig.Params().Len(); i++ {
 		bindParam(sig.Params().At(i))
 	}
@@ -408,6 +419,19 @@ func (x *Exec) frameObls(cu *FuncUnit, con *Contract, final *State, ee *evalEnv)
 			if it.whole && it.field == f {
 				whole = true
 			}
+			if it.deref != nil {
+				for _, df := range x.derefFields(cu, it.deref) {
+					if df == f {
+						sv := x.st
+						x.st = x.entry
+						x.inSpec++
+						o := x.expr(ee, it.deref)
+						x.inSpec--
+						x.st = sv
+						objs = append(objs, o.S)
+					}
+				}
+			}
 			if it.objExp != nil {
 				sel := it.objExp.(*ast.SelectorExpr)
 				if x.fieldByName(cu, sel) == f {
@@ -453,13 +477,14 @@ func (x *Exec) frameObls(cu *FuncUnit, con *Contract, final *State, ee *evalEnv)
 	}
 }
 
-// emits obligations: "emits <site>: argK == expr" evaluated in the state at the Sprintf call
+// emits obligations, evaluated in the state at the fmt.Sprintf call whose format contains the quoted fragment:
+//   emits "<format fragment>" argN == <spec expr>      the N-th argument (1-based, after the format) has this value
+//   emits "<format fragment>" assert <spec expr>       holds whenever that call is executed
 func (x *Exec) emitObls(cu *FuncUnit, con *Contract) {
 	for _, cl := range con.Clauses {
 		if cl.Kind != "emits" {
 			continue
 		}
-		// syntax: emits "<format substring>" argN == <spec expr>
 		txt := strings.TrimSpace(cl.Text)
 		if !strings.HasPrefix(txt, "\"") {
 			panic(evalError{fmt.Sprintf("%s:%d: BINDING: emits needs a quoted format fragment", cl.File, cl.Line)})
@@ -467,35 +492,51 @@ func (x *Exec) emitObls(cu *FuncUnit, con *Contract) {
 		end := strings.Index(txt[1:], "\"")
 		frag := txt[1 : 1+end]
 		rest := strings.TrimSpace(txt[2+end:])
-		var argN int
+		argN := -1
 		var expr string
-		if _, err := fmt.Sscanf(rest, "arg%d", &argN); err != nil {
-			panic(evalError{fmt.Sprintf("%s:%d: BINDING: emits: expected argN", cl.File, cl.Line)})
+		if strings.HasPrefix(rest, "assert ") {
+			expr = strings.TrimSpace(rest[7:])
+		} else {
+			if _, err := fmt.Sscanf(rest, "arg%d", &argN); err != nil {
+				panic(evalError{fmt.Sprintf("%s:%d: BINDING: emits: expected argN or assert", cl.File, cl.Line)})
+			}
+			i := strings.Index(rest, "==")
+			expr = strings.TrimSpace(rest[i+2:])
 		}
-		i := strings.Index(rest, "==")
-		expr = strings.TrimSpace(rest[i+2:])
+		n, err := parseSpec(expr)
+		if err != nil {
+			panic(evalError{fmt.Sprintf("%s:%d: BINDING: %v", cl.File, cl.Line, err)})
+		}
 		found := 0
+		base := fmt.Sprintf("emits:%s", sanitize(strings.TrimSpace(frag)))
+		if argN >= 0 {
+			base += fmt.Sprintf(".arg%d", argN)
+		} else {
+			base += ".assert"
+		}
 		for _, es := range x.emitSites {
 			if !strings.Contains(es.Format, frag) {
 				continue
 			}
 			found++
-			if argN >= len(es.Args) {
-				panic(evalError{fmt.Sprintf("%s:%d: BINDING: emits: format %q has no arg%d", cl.File, cl.Line, frag, argN)})
-			}
-			n, err := parseSpec(expr)
-			if err != nil {
-				panic(evalError{fmt.Sprintf("%s:%d: BINDING: %v", cl.File, cl.Line, err)})
-			}
 			sv := x.st
 			x.st = es.St
 			env := x.specEnvAt(es.Pos)
-			t := x.specTerm(env, n)
-			x.addObl("emits", fmt.Sprintf("emits:%s.arg%d", sanitize(strings.TrimSpace(frag)), argN), es.Pos, eq(es.Args[argN].S, t), cl.Text, cl.Props, fmt.Sprint(found))
+			if argN >= 0 {
+				if argN >= len(es.Args) {
+					x.addObl("emits", base, es.Pos, "false", cl.Text+"   [the call has no argument "+fmt.Sprint(argN)+"]", cl.Props, fmt.Sprint(found))
+				} else {
+					t := x.specTerm(env, n)
+					x.addObl("emits", base, es.Pos, eq(es.Args[argN].S, t), cl.Text, cl.Props, fmt.Sprint(found))
+				}
+			} else {
+				x.addObl("emits", base, es.Pos, x.spec(env, n), cl.Text, cl.Props, fmt.Sprint(found))
+			}
 			x.st = sv
 		}
 		if found == 0 {
-			panic(evalError{fmt.Sprintf("%s:%d: BINDING: emits: no Sprintf call with a constant format containing %q (a literal where a hole is required?)", cl.File, cl.Line, frag)})
+			o := x.addObl("emits", base, cu.Decl.Pos(), "false", cl.Text+"   [no fmt.Sprintf call whose format contains this fragment: a literal where a hole is required?]", cl.Props, "0")
+			o.PC = []string{}
 		}
 	}
 }
